@@ -57,6 +57,9 @@ def replay(ctx, case):
     check(ctx, case)
 
 
+FUZZ_IMPORTS = ['mwlib.parser.refine.uparser', 'mwlib.parser.refine.core', 'mwlib.parser.refine.compat', 'mwlib.parser.expander', 'mwlib.parser.refine.parse_table', 'mwlib.parser.refine.tagparser', 'mwlib.parser.styleanalyzer', 'mwlib.parser.nodes', 'mwlib.parser.advtree']
+
+
 def run_shard(ctx):
     @ctx.settings(ctx.n(24000, 400000))
     @given(_doc.documents())
@@ -69,3 +72,4 @@ def run_shard(ctx):
         ctx.record(doc["lang"] + doc["src"], labels, nt, sample=dict(lang=doc["lang"], src=doc["src"][:600], words=len(doc["expected"])))
 
     ctx.run_given(t)
+    ctx.fuzz_campaign("", (0, 320000))
